@@ -1,4 +1,4 @@
-import Tmv.Lemmas.LightExpiry
+import Tmv.Lemmas.LightRestart
 /-! C09 — the light client only trusts headers reachable by valid verification steps; a header is
 accepted by the forward paths only if some witness returned the identical header; a backed
 conflicting header yields the attack error with evidence. Theorems about the model
@@ -90,7 +90,7 @@ def runOp (c : Client) : Op → Client
 
 def runOps (c : Client) (ops : List Op) : Client := ops.foldl runOp c
 
-theorem runOp_inv {cfg : Config} {root : Hash} {c : Client} (h : Inv cfg root c) (op : Op) :
+theorem runOp_inv {cfg : Config} {root : Hash → Prop} {c : Client} (h : Inv cfg root c) (op : Op) :
     Inv cfg root (runOp c op) := by
   have h' : ∀ s, Inv cfg root { c with sched := s } := fun s => ⟨h.1, h.2.1, h.2.2⟩
   cases op with
@@ -105,9 +105,9 @@ in the trusted store (and the cached latest block) is reachable from the trust r
 theorem stored_reachable {cfg : Config} {primary : Prov} {witnesses : List Prov}
     {sched : List Prov → List Nat} {period height : Int} {root : Hash} {c0 : Client}
     (hnew : newClient cfg primary witnesses sched period height root = .ok c0) (ops : List Op) :
-    (∀ b ∈ (runOps c0 ops).store.blocks, Reach cfg root b) ∧
-    (∀ l, (runOps c0 ops).latest = some l → Reach cfg root l) := by
-  have : ∀ (ops : List Op) (c : Client), Inv cfg root c → Inv cfg root (runOps c ops) := by
+    (∀ b ∈ (runOps c0 ops).store.blocks, Reach cfg (· = root) b) ∧
+    (∀ l, (runOps c0 ops).latest = some l → Reach cfg (· = root) l) := by
+  have : ∀ (ops : List Op) (c : Client), Inv cfg (· = root) c → Inv cfg (· = root) (runOps c ops) := by
     intro ops
     induction ops with
     | nil => intro c h; exact h
@@ -118,7 +118,7 @@ theorem stored_reachable {cfg : Config} {primary : Prov} {witnesses : List Prov}
 theorem new_client_stores_root {cfg : Config} {primary : Prov} {witnesses : List Prov}
     {sched : List Prov → List Nat} {period height : Int} {root : Hash} {c0 : Client}
     (hnew : newClient cfg primary witnesses sched period height root = .ok c0) :
-    ∀ b ∈ c0.store.blocks, Reach cfg root b := (newClient_inv hnew).2.1
+    ∀ b ∈ c0.store.blocks, Reach cfg (· = root) b := (newClient_inv hnew).2.1
 
 theorem runOp_cinv {c : Client} (h : CInv c) (op : Op) : CInv (runOp c op) := by
   have h' : ∀ s, CInv { c with sched := s } := fun s => ⟨⟨h.1.1, h.1.2⟩, h.2.1, h.2.2⟩
@@ -146,6 +146,86 @@ theorem stored_valsets_committed {cfg : Config} {primary : Prov} {witnesses : Li
     | cons op rest ih => intro c h; exact ih _ (runOp_cinv h op)
   exact (this ops c0 (newClient_cinv hp hw hnew)).2
 
+/-! ### the whole life of a trusted store: restarts, rollback, cleanup, `VerifyHeader`, pruning -/
+
+/-- everything that can happen to a trusted store between its creation and now -/
+inductive SOp
+  | call (op : Op)
+  /-- `VerifyHeader` for a header given by hash and height -/
+  | verifyHeader (hash : Hash) (height now : Int) (sched : List Prov → List Nat)
+  /-- `Cleanup` -/
+  | cleanup
+  /-- `NewClientFromTrustedStore` over the existing store (possibly other providers) -/
+  | restart (primary : Prov) (witnesses : List Prov) (sched : List Prov → List Nat)
+  /-- `NewClient` with trust options over the existing store: `checkTrustedHeaderUsingOptions`
+  (comparison with the primary, rollback by `cleanupAfter`, `Cleanup` on mismatch) and, if needed,
+  `initializeWithTrustOptions` -/
+  | restartWithOptions (primary : Prov) (witnesses : List Prov) (sched : List Prov → List Nat)
+      (period height : Int) (hash : Hash)
+
+/-- a failing constructor leaves the store as the constructor left it; the session goes on with it -/
+def runSOp (cfg : Config) (c : Client) : SOp → Client
+  | .call op => runOp c op
+  | .verifyHeader hash height now s => (verifyHeader { c with sched := s } hash height now).1
+  | .cleanup => cleanup c
+  | .restart p ws s => (newClientOn c cfg p ws s false 0 0 0).1
+  | .restartWithOptions p ws s period height hash => (newClientOn c cfg p ws s true period height hash).1
+
+def runSOps (cfg : Config) (c : Client) (ops : List SOp) : Client := ops.foldl (runSOp cfg) c
+
+/-- the trust hashes the user supplied during the session -/
+def suppliedRoots (root0 : Hash) (ops : List SOp) (h : Hash) : Prop :=
+  h = root0 ∨ ∃ p ws s period height, SOp.restartWithOptions p ws s period height h ∈ ops
+
+/-- **stored_reachable over the whole life of the store.** Start with `NewClient` (trust hash
+`root0`) and apply ANY sequence of public operations — verification calls, `VerifyHeader`, `Cleanup`,
+restarts from the existing store with or without new trust options (including rollback to an older
+height and the wipe on a hash mismatch), with the store pruned to its maximum size after every
+insertion (`cfg.pruning`): at every moment every block left in the store, and the cached latest
+block, is reachable by valid steps from a header whose hash the user supplied as a trust option at
+some (re)start. Pruning and rollback only remove blocks; what stays keeps its chain (the chain may
+run through blocks that have been pruned since). The configuration (`cfg`: trusting period, trust
+level, drift, mode) is the same at every restart. -/
+theorem stored_reachable_session {cfg : Config} {primary : Prov} {witnesses : List Prov}
+    {sched : List Prov → List Nat} {period height : Int} {root0 : Hash} {c0 : Client}
+    (hnew : newClient cfg primary witnesses sched period height root0 = .ok c0) (ops : List SOp) :
+    (∀ b ∈ (runSOps cfg c0 ops).store.blocks, Reach cfg (suppliedRoots root0 ops) b) ∧
+    (∀ l, (runSOps cfg c0 ops).latest = some l → Reach cfg (suppliedRoots root0 ops) l) := by
+  have step : ∀ (R : Hash → Prop) (c : Client) (op : SOp), Inv cfg R c →
+      (∀ p ws s period height h, op = SOp.restartWithOptions p ws s period height h → R h) →
+      Inv cfg R (runSOp cfg c op) := by
+    intro R c op hi hr
+    cases op with
+    | call op => exact runOp_inv hi op
+    | verifyHeader hash height now s =>
+      exact verifyHeader_inv (c := { c with sched := s }) ⟨hi.1, hi.2.1, hi.2.2⟩
+    | cleanup => exact cleanup_inv hi
+    | restart p ws s => exact newClientOn_inv hi (fun h => by cases h)
+    | restartWithOptions p ws s period height hash =>
+      exact newClientOn_inv hi (fun _ => hr p ws s period height hash rfl)
+  have all : ∀ (R : Hash → Prop) (ops : List SOp) (c : Client), Inv cfg R c →
+      (∀ p ws s period height h, SOp.restartWithOptions p ws s period height h ∈ ops → R h) →
+      Inv cfg R (runSOps cfg c ops) := by
+    intro R ops
+    induction ops with
+    | nil => intro c h _; exact h
+    | cons op rest ih =>
+      intro c h hr
+      refine ih _ (step R c op h ?_) ?_
+      · intro p ws s period height hh e
+        exact hr p ws s period height hh (by rw [e]; exact List.mem_cons_self)
+      · intro p ws s period height hh e
+        exact hr p ws s period height hh (List.mem_cons_of_mem _ e)
+  have h0 : Inv cfg (suppliedRoots root0 ops) c0 := by
+    have := newClient_inv hnew
+    exact ⟨this.1, fun b hb => (this.2.1 b hb).mono (fun h e => Or.inl e),
+      fun l hl => (this.2.2 l hl).mono (fun h e => Or.inl e)⟩
+  exact (all _ ops c0 h0 (fun p ws s period height h e => Or.inr ⟨p, ws, s, period, height, e⟩)).2
+
+/-- pruning in isolation: `Prune` and `DeleteLightBlock` only remove blocks -/
+theorem prune_only_removes (s : Store) (n : Nat) : ∀ b ∈ (s.prune n).blocks, b ∈ s.blocks :=
+  fun _ hb => mem_prune hb
+
 /-- one link of a trust chain: a valid forward step at some local time, a backward hash link, or
 re-labelling by header hash -/
 inductive Link (cfg : Config) : LightBlock → LightBlock → Prop
@@ -155,8 +235,8 @@ inductive Link (cfg : Config) : LightBlock → LightBlock → Prop
 
 /-- reachability read literally: there is a chain of links from a block carrying the trust-root
 hash to the block -/
-theorem reach_chain {cfg : Config} {root : Hash} {b : LightBlock} (h : Reach cfg root b) :
-    ∃ l : List LightBlock, (∃ b0, l.head? = some b0 ∧ b0.hash = root) ∧ l.getLast? = some b ∧
+theorem reach_chain {cfg : Config} {root : Hash → Prop} {b : LightBlock} (h : Reach cfg root b) :
+    ∃ l : List LightBlock, (∃ b0, l.head? = some b0 ∧ root b0.hash) ∧ l.getLast? = some b ∧
       Chain (Link cfg) l := by
   induction h with
   | root b hb => exact ⟨[b], ⟨b, rfl, hb⟩, rfl, trivial⟩
@@ -349,8 +429,18 @@ def V : ValSet := { vals := [(0, 1), (1, 1), (2, 1)], hash := 1 }
 def hdr (h t : Int) (app hash last : Nat) : Header := {
   chain := 0, height := h, time := t, valsHash := 1, nextValsHash := 1
   lastBlockHash := last, appHash := app, consHash := 0, resHash := 0, basicOK := true, hash := hash }
+/-- signature tokens: 1 = valid for the slot's validator over this commit, anything else invalid -/
+def sigOK : SigOK := fun _ _ s => s == 1
+def bid (hash : Nat) : CommitVerify.BlockID :=
+  { hash := List.replicate 32 (UInt8.ofNat hash), total := 1, psHash := List.replicate 32 1 }
+/-- a commit in which exactly the validators `signers` (ids 0..2, in set order) signed for the block -/
+def mkCommit (h : Int) (hash : Nat) (signers : List Nat) : CommitVerify.Commit Nat :=
+  { height := h, round := 0, blockID := bid hash,
+    sigs := [0, 1, 2].map fun id =>
+      if signers.contains id then { flag := 2, addr := [UInt8.ofNat id], ts := 7, sig := 1 }
+      else { flag := 1, addr := [], ts := 0, sig := 0 } }
 def blk (h t : Int) (app hash last : Nat) (signers : List Nat) : LightBlock :=
-  { hdr := hdr h t app hash last, commitOK := true, signers := signers, vals := V }
+  { hdr := hdr h t app hash last, commitOK := true, commit := mkCommit h hash signers, vals := V }
 def b1 := blk 1 10 0 1 0 [0, 1, 2]
 def b2 := blk 2 20 0 2 1 [0, 1, 2]
 def b3 := blk 3 30 0 3 2 [0, 1, 2]
@@ -365,7 +455,7 @@ def liar (id : Nat) : Prov := { id := id, chain := 0, script := table [b1, b2, f
 def silent (id : Nat) : Prov := { id := id, chain := 0, script := fun _ _ => .err .noResponse }
 def cfg : Config := {
   chain := 0, period := 1000, sequential := false, level := ⟨1, 3⟩, drift := 1
-  pruning := 0, fuel := 30 }
+  pruning := 0, fuel := 30, sigOK := sigOK }
 def fifo : List Prov → List Nat := fun ws => List.range ws.length
 
 instance : Inhabited Client := ⟨{
@@ -426,6 +516,13 @@ example : ((verifyLightBlockAtHeight (start (honest 1) [liar 2]) 3 35).1.evidenc
     fun e => (e.1, e.2.conflicting)) = [(2, 3), (1, 5)] := by decide
 example : ((verifyLightBlockAtHeight (start (honest 1) [liar 2, honest 3]) 3 35).1.store.blocks.map (·.hash)) = [1] := by
   decide
+theorem exA (k : Calls) : (examine cfg 35 [b1, b3] f3 k (liar 2)).2 = some ([b1, f3], b3) := by with_unfolding_all rfl
+theorem exB (k : Calls) : (examine cfg 35 [b1, f3] b3 k (honest 1)).2 = some ([b1, b3], f3) := by with_unfolding_all rfl
+theorem exC (k : Calls) : (compareNewHeaderWithWitness k b3 (liar 2) 1).2 = .conflict f3 1 := by with_unfolding_all rfl
+theorem exW : (start (honest 1) [silent 3, liar 2]).witnesses = [silent 3, liar 2] := by with_unfolding_all rfl
+theorem exP : (start (honest 1) [silent 3, liar 2]).primary = honest 1 := by with_unfolding_all rfl
+theorem exCfg : (start (honest 1) [silent 3, liar 2]).cfg = cfg := by with_unfolding_all rfl
+
 /-- the hypotheses of `conflict_reported_any_order` are satisfiable: the lying witness backs its header
 in every state with these providers (its script does not depend on the call history) -/
 example : ∀ c1, Sim (start (honest 1) [silent 3, liar 2]) c1 →
@@ -435,11 +532,22 @@ example : ∀ c1, Sim (start (honest 1) [silent 3, liar 2]) c1 →
   intro c1 hs
   obtain ⟨cfg1, p1, ws1, k1, st1, l1, ev1, sc1⟩ := c1
   obtain ⟨h1, h2, h3⟩ := hs
-  simp only at h1 h2 h3
+  simp only [exW, exP, exCfg] at h1 h2 h3
   subst h1 h2 h3
-  refine ⟨f3, 1, ?_, ?_⟩
-  · with_unfolding_all rfl
-  · with_unfolding_all rfl
+  refine ⟨f3, 1, exC _, ?_⟩
+  unfold handleConflictingHeaders
+  simp only [List.getElem?_cons_succ, List.getElem?_cons_zero]
+  generalize (compareNewHeaderWithWitness k1 b3 (liar 2) 1).1 = k2
+  generalize hq : examine cfg 35 [b1, b3] f3 k2 (liar 2) = q
+  obtain ⟨k3, r⟩ := q
+  have hr : r = some ([b1, f3], b3) := by have := exA k2; rw [hq] at this; exact this
+  subst hr
+  simp only [List.head?_cons, List.getLast?_cons_cons, List.getLast?_singleton]
+  generalize hq2 : examine cfg 35 [b1, f3] b3 k3 (honest 1) = q2
+  obtain ⟨k4, r2⟩ := q2
+  have hr2 : r2 = some ([b1, b3], f3) := by have := exB k3; rw [hq2] at this; exact this
+  subst hr2
+  simp only [List.head?_cons, List.getLast?_cons_cons, List.getLast?_singleton]
 
 /-- expiry corner: with period 1000 the block of time 10 is usable at now = 1009 and expired at 1010 -/
 example : headerExpired b1 1000 1009 = false ∧ headerExpired b1 1000 1010 = true := by decide
